@@ -25,6 +25,8 @@ package main
 //   - HEAD responses have no body: a 404 is resolved into NoSuchBucket/NoSuchKey by a HEAD on the bucket,
 //     as a client would do.
 import (
+	"crypto/md5"
+	"encoding/base64"
 	"bytes"
 	"context"
 	"encoding/xml"
@@ -50,6 +52,25 @@ type metaHTTP struct {
 	faults          []string
 	notes           map[string]bool // tags for the evidence (adapter went direct / saw a 500)
 	lists           int
+	deco            int
+}
+
+// decorate adds request headers that must not change what the engine observes (tags and user metadata are not
+// read back by it; a correct Content-MD5 only adds a validation that passes). A handler that loses another option
+// while it processes one of these (e.g. rebuilds its options struct for the tagging header) then shows.
+func (m *metaHTTP) decorate(h map[string]string, body []byte, tagging, meta bool) {
+	m.deco++
+	k := m.deco * 7 % 8
+	if tagging && k&1 != 0 {
+		h["x-amz-tagging"] = "verif=1&k=v"
+	}
+	if meta && k&2 != 0 {
+		h["x-amz-meta-verif"] = "x"
+	}
+	if body != nil && k&4 != 0 {
+		sum := md5.Sum(body)
+		h["Content-MD5"] = base64.StdEncoding.EncodeToString(sum[:])
+	}
 }
 
 var metaHTTPQuiet sync.Once
@@ -371,6 +392,7 @@ func (m *metaHTTP) PutObject(ctx context.Context, bucket storage.BucketName, key
 	if body == nil {
 		body = []byte{}
 	}
+	m.decorate(h, body, true, true)
 	r := m.do(ctx, http.MethodPut, bucket.String(), key.String(), nil, h, body)
 	if r.code != 200 {
 		return nil, m.toError(ctx, r, bucket.String())
